@@ -82,6 +82,7 @@ def c05(tier):
     family(v, wd, "C05", "timers1", 2, "ProgsT1", 14, what="one timer step per task + trailing sleep (both event-set backends)", heap=True)
     family(v, wd, "C05", "timers2", 2, "ProgsT2", 16, what="two timer steps per task (13 kinds: sleep, timeout, select, reset, poll-and-drop) + trailing sleep")
     family(v, wd, "C05", "interval", 1, "ProgsIvl", 24, what="interval with Burst / Delay / Skip and sleeps that miss ticks")
+    family(v, wd, "C05", "interval_at", 1, "ProgsIvlAt", 24, what="interval_at with a start in the future, Interval::reset, accessors")
     family(v, wd, "C05", "interval_ms", 1, "ProgsIvlMs", 120, tol=5, tick_ns=1_000_000,
            what="10 ms interval on a millisecond grid: ticks picked up <= 5 ms late (not missed) and later (missed)")
     family(v, wd, "C05", "chan", 2, "ProgsChan", 14, what="timeouts around receives, module-to-task messages (both event-set backends)", heap=True)
